@@ -5,7 +5,7 @@ From Gv Require Import lib.Bytes lib.Json lib.Gql lib.Exec
      C01.ProofsTwoStep C01.ProofsViol C01.ProofsCtxBase C01.ProofsCtx C01.ProofsTwoStepWf C01.ProofsPlanAlg
      C01.ProofsPlan C01.ProofsPlanOk C01.ProofsDedup C01.ProofsListHop
      C01.ProofsTvStatic C01.ProofsTvDefs C01.ProofsTvHidden C01.ProofsPlanGen C01.ProofsPlan2 C01.ProofsPlan2Link
-     C01.ProofsPlan2Root C01.ProofsFuelSuff C01.ProofsPlan3 C01.ProofsPlan3Keys C01.ProofsPlan3Fetch.
+     C01.ProofsPlan2Root C01.ProofsFuelSuff C01.ProofsNKeyDefs C01.ProofsPlan3 C01.ProofsPlan3Keys C01.ProofsPlan3Fetch.
 Open Scope N_scope.
 
 (* ---- several sources, each the fold of its own fields plus further members, read back in field order ---- *)
@@ -118,8 +118,8 @@ Proof. destruct it; reflexivity. Qed.
 
 Section ItemShape.
   Variables (sc : schema) (subs : list schema) (vdsM : list vardef) (supM : list (bytes * json)) (kq : nat).
-  Variables (ab : bool) (decls : list (name * list name)) (rdecls : list rdecl).
-  Notation item_static' := (item_static_b sc subs [] vdsM supM kq ab decls rdecls).
+  Variables (ab : bool) (decls : list (name * list name)) (rdecls : list rdecl) (ndecls : list (name * (list name * nkspec))).
+  Notation item_static' := (item_static_b sc subs [] vdsM supM kq ab decls rdecls ndecls).
 
   Lemma item_static_plain k T it :
     item_static' k T it = true ->
@@ -163,14 +163,23 @@ Qed.
 (* ---- accepted plan trees contain no fragment spreads (fuel sufficiency applies) ---- *)
 Lemma key_sels_nospread ks : sels_nospread (key_sels ks) = true.
 Proof. unfold key_sels. induction (key_names ks) as [|x l IH]; [reflexivity|]. cbn. exact IH. Qed.
+Lemma nsels_nospread kn : sels_nospread (nsels kn) = true.
+Proof.
+  unfold sels_nospread, nsels. apply forallb_forall. intros s Hs. apply in_map_iff in Hs. destruct Hs as (x & <- & _).
+  unfold nsel. rewrite nospread_field. unfold sels_nospread. apply forallb_forall. intros s0 Hs0. apply in_map_iff in Hs0.
+  destruct Hs0 as (i & <- & _). reflexivity.
+Qed.
 Lemma keys_from_nospread t fetches : sels_nospread (keys_from t fetches) = true.
-Proof. unfold keys_from. destruct (filter _ fetches); [reflexivity|apply key_sels_nospread]. Qed.
+Proof.
+  unfold keys_from. destruct (filter _ fetches); [reflexivity|].
+  rewrite nospread_app, key_sels_nospread, nsels_nospread. reflexivity.
+Qed.
 
 Section Nospread.
   Variables (sc : schema) (subs : list schema) (vdsM : list vardef) (supM : list (bytes * json)) (kq : nat).
-  Variables (ab : bool) (decls : list (name * list name)) (rdecls : list rdecl).
-  Notation pt_static' := (pt_static_b sc subs [] vdsM supM kq ab decls rdecls).
-  Notation item_static' := (item_static_b sc subs [] vdsM supM kq ab decls rdecls).
+  Variables (ab : bool) (decls : list (name * list name)) (rdecls : list rdecl) (ndecls : list (name * (list name * nkspec))).
+  Notation pt_static' := (pt_static_b sc subs [] vdsM supM kq ab decls rdecls ndecls).
+  Notation item_static' := (item_static_b sc subs [] vdsM supM kq ab decls rdecls ndecls).
 
   Lemma static_nospread : forall k,
       (forall T pt, pt_static' k T pt = true ->
